@@ -571,6 +571,43 @@ theorem step_other_trees (w : World) (op : Op) (j : Nat) (tj : Tree) (hj : w.tre
       · split
         · exact hj
         · exact World.push_other hj
+  | addVia i ref a via did kind =>
+    have hij : i ≠ j := fun e => hne (by rw [e]; rfl)
+    simp only [World.step]
+    split
+    · exact hj
+    · split
+      · exact hj
+      · split
+        · exact (List.getElem?_set_ne hij).trans hj
+        · exact hj
+  | delItem i a asId =>
+    have hij : i ≠ j := fun e => hne (by rw [e]; rfl)
+    simp only [World.step]
+    split
+    · exact hj
+    · exact (World.setTree_other hij).trans hj
+  | metaSet i n k v =>
+    have hij : i ≠ j := fun e => hne (by rw [e]; rfl)
+    exact (World.metaEdit_other hij).trans hj
+  | metaClear i n k =>
+    have hij : i ≠ j := fun e => hne (by rw [e]; rfl)
+    exact (World.metaEdit_other hij).trans hj
+  | metaUpdate i n vals replace =>
+    have hij : i ≠ j := fun e => hne (by rw [e]; rfl)
+    exact (World.metaEdit_other hij).trans hj
+  | clear i =>
+    have hij : i ≠ j := fun e => hne (by rw [e]; rfl)
+    simp only [World.step]
+    split
+    · exact hj
+    · exact (World.setTree_other hij).trans hj
+  | sortTree i key rev deep =>
+    have hij : i ≠ j := fun e => hne (by rw [e]; rfl)
+    simp only [World.step]
+    split
+    · exact hj
+    · exact (World.setTree_other hij).trans hj
 
 /-- the source of a copy is unchanged, also when source and target are different trees of the
 same world: `add_child(node)` / `add_child(tree)` / `copy_to` into tree `i` from tree `si ≠ i`. -/
